@@ -1026,3 +1026,101 @@ func asciiBounded(x ssa.Value, b *ssa.BasicBlock) bool {
 	}
 	return false
 }
+
+// checkLoopGuardToken (C04 verdict.lasttoken): a parser loop that goes on "while the next token is not X" has looked at the
+// *peek* token; the token its body then reads through p.curToken is the one before it unless the parser advances
+// first. Guard and dispatch must talk about the same token: on every path from the guard `PeekTokenIs(X)` into the
+// body, an advance (a call that reaches NextToken) comes before the first read of p.curToken. A loop that tests the
+// peek token and dispatches on the current one stops one token early: the last token of the input is never parsed,
+// and whatever it is, the file is accepted.
+func checkLoopGuardToken(c *core.Ctx) {
+	prog := c.Prog
+	next := prog.SSAFunc("parser", "Parser.NextToken")
+	if next == nil {
+		c.MissingAnchor("verdict.lasttoken", "parser.(*Parser).NextToken")
+		return
+	}
+	funcs := prog.ModuleFuncs("parser")
+	// functions that can advance the token stream
+	adv := map[*ssa.Function]bool{next: true}
+	for changed := true; changed; {
+		changed = false
+		for _, fn := range funcs {
+			if adv[fn] {
+				continue
+			}
+			for _, b := range fn.Blocks {
+				for _, in := range b.Instrs {
+					if cal := core.StaticCallee(in); cal != nil && adv[cal] && !adv[fn] {
+						adv[fn] = true
+						changed = true
+					}
+				}
+			}
+		}
+	}
+	readsCur := func(in ssa.Instruction) bool {
+		ld, ok := in.(*ssa.UnOp)
+		if !ok || ld.Op != token.MUL {
+			return false
+		}
+		f := core.FieldOf(ld.X)
+		return f != nil && f.Name() == "curToken" && strings.HasSuffix(core.FieldOwner(ld.X), "/parser.Parser")
+	}
+	for _, fn := range funcs {
+		if fn.Pkg == nil || !strings.HasSuffix(fn.Pkg.Pkg.Path(), "/parser") {
+			continue
+		}
+		for _, l := range naturalLoops(fn) {
+			h := l.header
+			iff, ok := h.Instrs[len(h.Instrs)-1].(*ssa.If)
+			if !ok {
+				continue
+			}
+			call, ok := iff.Cond.(*ssa.Call)
+			if !ok || call.Common().StaticCallee() == nil || call.Common().StaticCallee().Name() != "PeekTokenIs" {
+				continue
+			}
+			// which successor stays in the loop
+			var entry *ssa.BasicBlock
+			for _, s := range h.Succs {
+				if l.body[s] && s != h {
+					entry = s
+				}
+			}
+			if entry == nil {
+				continue
+			}
+			key := core.FnName(fn) + "|" + l.ord
+			// walk from entry: a read of curToken before any advance?
+			var bad ssa.Instruction
+			seen := map[*ssa.BasicBlock]bool{}
+			var walk func(b *ssa.BasicBlock)
+			walk = func(b *ssa.BasicBlock) {
+				if bad != nil || seen[b] || !l.body[b] || b == h {
+					return
+				}
+				seen[b] = true
+				for _, in := range b.Instrs {
+					if cal := core.StaticCallee(in); cal != nil && adv[cal] {
+						return
+					}
+					if readsCur(in) {
+						bad = in
+						return
+					}
+				}
+				for _, s := range b.Succs {
+					walk(s)
+				}
+			}
+			walk(entry)
+			if bad != nil {
+				c.Report("verdict.lasttoken", key, bad.Pos(), fmt.Sprintf("loop #%s of %s goes on while the peek token is not the terminator, but reads p.curToken before advancing: guard and dispatch look at different tokens, the loop stops one token early and the last token of the input is never parsed (a stray token at the end is accepted)", l.ord, core.FnName(fn)))
+			} else {
+				c.Discharge("verdict.lasttoken", key, firstPos(h), "the parser advances before the body reads the current token")
+			}
+		}
+	}
+	c.Floor("verdict.lasttoken", 4)
+}
